@@ -894,15 +894,21 @@ def op_resize(ctx, add, label, rt, site):
     if re_:
         # in place: safe iff the live elements are contiguous and lie below n (and the head stays a valid index).
         # Proof: linear reasoning over the row; refutation: a concrete small buffer state consistent with the row.
+        pos_kept = isinstance(pos1, Lin) and pos1 == P_
         def safe_at(env):
             P, S, C, n = env['P'], env['S'], env['C'], env['p:newCapacity']
-            if S == 0: return P < n or n >= C        # nothing to lose; the head must stay below the new capacity when shrinking
+            if n == 0: return True                   # capacity 0 is outside the property's domain (capacity >= 1)
+            if S == 0:
+                # nothing to lose; whatever the head is afterwards, it must be a valid slot of the new storage
+                p1 = P if pos_kept else concrete(pos1, env)
+                if p1 is None: raise LookupError('head after the reallocation')
+                return 0 <= p1 < n
             return P + S <= C and P + S <= n
         sS = ctx.sign(S_)
-        if sS == 0: needs = [(N - P_, True)] if ctx.sign(N - C_) != 1 else []
+        if sS == 0: needs = ([(N - P_, True)] if ctx.sign(N - C_) != 1 else []) if pos_kept else None
         else: needs = [(C_ - P_ - S_, False), (N - P_ - S_, False)]
-        signs = [ctx.sign(d) for d, strict in needs]
-        proved = sS is not None and all(s_ is not None and (s_ > 0 or (s_ == 0 and not strict)) for s_, (d, strict) in zip(signs, needs))
+        signs = [ctx.sign(d) for d, strict in needs] if needs is not None else []
+        proved = needs is not None and sS is not None and all(s_ is not None and (s_ > 0 or (s_ == 0 and not strict)) for s_, (d, strict) in zip(signs, needs))
         safe = True if proved else None
         why = ''
         if not proved:
@@ -920,8 +926,8 @@ def op_resize(ctx, add, label, rt, site):
         add('RB.4', safe, f'{label} {rt}: in-place reallocation only when every live element lies below n', re_[0][0].shortloc(), why, key='RB.4|inplace-guard')
         if ctx.is_class or True:
             add('RB.8', safe, f'{label} {rt}: an in-place reallocation abandons no live element', re_[0][0].shortloc(), why, key='RB.8|inplace-guard')
-        okf = isinstance(pos1, Lin) and pos1 == P_ and size1 is not None and ctx.eq(size1, S_)
-        add('RB.4', okf, f'{label} {rt}: in place keeps pos and size', site, '' if okf else f'pos\'={pos1}, size\'={size1}', key='RB.4|inplace-fields')
+        okf = size1 is not None and ctx.eq(size1, S_) and (pos_kept or (sS == 0 and safe is True))        # an empty buffer may rewind its head
+        add('RB.4', okf, f'{label} {rt}: in place keeps pos and size (an empty buffer may move its head to any valid slot)', site, '' if okf else f'pos\'={pos1}, size\'={size1}', key='RB.4|inplace-fields')
         okb = isinstance(re_[0][1][2], Bytes) and as_lin(re_[0][1][2].n) is not None and ctx.eq(as_lin(re_[0][1][2].n), N)
         add('RB.9', okb, f'{label}: realloc(n * sizeof(T))', re_[0][0].shortloc(), '' if okb else f'realloc size {re_[0][1][2]}', key='RB.9|realloc-n')
         return
